@@ -49,6 +49,10 @@ pub enum StageKind {
     Entropy,
     Sweep,
     WriteErr,
+    /// exhaustive: every value of every small width through every arm/flavour (index = point)
+    SmallValues,
+    /// exhaustive: every input of at most N bytes to every decoder at the small widths
+    ShortInputs(usize),
 }
 
 #[derive(Clone, Copy, Debug)]
@@ -72,11 +76,19 @@ pub fn stages(property: &str, tier: &str, scale: f64) -> Vec<Stage> {
             // encoding through a writer that fails at byte k: the error must surface and the bytes
             // that reached the medium must be a prefix of the reference encoding
             Stage { name: "pipeline write-error", arm_id: 8, kind: StageKind::WriteErr, runs: n(200_000) },
+            // seed-independent supplement: the complete value space of the small widths
+            Stage { name: "exhaustive: all values of widths 0..13 bits", arm_id: 9, kind: StageKind::SmallValues, runs: gen::small_values_len() },
         ],
         "C17" => vec![
             Stage { name: "pipeline destructive", arm_id: 2, kind: StageKind::Pipeline(C17_CFG), runs: n(1_500_000) },
             Stage { name: "text", arm_id: 3, kind: StageKind::Text, runs: n(600_000) },
             Stage { name: "single-fault sweep", arm_id: 4, kind: StageKind::Sweep, runs: n(3_000) },
+            // seed-independent supplement: every input of at most 1 (quick) / 2 (thorough) bytes
+            if tier == "thorough" {
+                Stage { name: "exhaustive: all inputs of <= 2 bytes, widths 0..13 bits", arm_id: 10, kind: StageKind::ShortInputs(2), runs: gen::short_inputs_len(2) }
+            } else {
+                Stage { name: "exhaustive: all inputs of <= 1 byte, widths 0..13 bits", arm_id: 10, kind: StageKind::ShortInputs(1), runs: gen::short_inputs_len(1) }
+            },
         ],
         "C04" => vec![
             Stage { name: "entropy", arm_id: 5, kind: StageKind::Entropy, runs: n(600_000) },
@@ -227,6 +239,7 @@ fn plan_for_inner(stage: &Stage, seed: u64, restrict: &Restrict) -> Plan {
     match stage.kind {
         StageKind::Pipeline(cfgs) => gen::gen_pipeline(seed, cfgs, restrict),
         StageKind::WriteErr => gen::gen_write_err(seed, restrict),
+        StageKind::SmallValues | StageKind::ShortInputs(_) => unreachable!("indexed, not seeded"),
         StageKind::Text => gen::gen_text(seed, restrict),
         StageKind::Entropy => gen::gen_entropy(seed, restrict),
         StageKind::Sweep => unreachable!(),
@@ -238,6 +251,7 @@ fn restrict_applies(stage: &Stage, cfg_codec: Option<&str>) -> bool {
     match (stage.kind, cfg_codec) {
         (_, None) => true,
         (StageKind::Pipeline(_) | StageKind::Sweep | StageKind::WriteErr, Some(c)) => crate::arms::arm_by_name(c).is_some(),
+        (StageKind::SmallValues | StageKind::ShortInputs(_), Some(_)) => false,
         (StageKind::Text, Some(c)) => matches!(c, "from_str" | "bits_from_str" | "from_str_radix" | "from_base_be" | "from_base_le"),
         (StageKind::Entropy, Some(c)) => crate::entropy::CODECS.contains(&c),
     }
@@ -333,6 +347,16 @@ pub fn run_stage_range(
                                 }
                                 let rep = run_plan(p, false);
                                 acc.add(stage, i.wrapping_mul(1 << 20).wrapping_add(k as u64), p, rep, property, false);
+                            }
+                        } else if let StageKind::SmallValues | StageKind::ShortInputs(_) = stage.kind {
+                            let plan = match stage.kind {
+                                StageKind::SmallValues => gen::small_value_plan(i),
+                                StageKind::ShortInputs(n) => gen::short_input_plan(i, n),
+                                _ => None,
+                            };
+                            if let Some(plan) = plan {
+                                let rep = run_plan(&plan, false);
+                                acc.add(stage, i, &plan, rep, property, keep_digests);
                             }
                         } else {
                             let plan = plan_for(stage, seed, &restrict);
@@ -604,6 +628,7 @@ fn evidence(
             "runs_per_configuration": total.per_config,
             "operation_outcomes": total.outcome_letters.iter().map(|(k, v)| (k.to_string(), *v)).collect::<BTreeMap<String, u64>>(),
             "outcome_legend": "k ok on undamaged record; K ok on damaged input (judged by the reference denotation); e error on damaged input; E error on undamaged record; p panic; s step budget; - record lost",
+            "exhaustive_substages": "stages whose name starts with 'exhaustive:' enumerate a finite sub-space completely and are independent of VERIF_SEED (all values of the widths 0,1,2,3,7,8,12,13 through every arm, flavour and postgres column type; all inputs of at most 1 (quick) or 2 (thorough) bytes to every decoder at those widths); the overall check remains a seeded search, so coverage.exhaustive is not set",
             "sweep": {"records": total.sweep_records, "records_with_every_bit_flipped": total.sweep_exhaustive, "exhaustive_single_fault_per_record": "every truncation offset, every read-cut offset (ERR and EOF), every write-error offset; every single-bit flip for encodings <= 128 bytes; every value of each of the first two bytes"},
             "components": {
                 "real": ["ruint (rebuilt from /repo working tree): encoders, decoders, bytes.rs, string.rs, base_convert.rs, generators", "borsh", "parity-scale-codec", "alloy-rlp", "fastrlp 0.3/0.4", "rlp 0.5", "der", "ethereum_ssz", "serde_json", "bincode", "bytes", "postgres-types", "bytemuck", "num-bigint", "primitive-types", "ark-ff 0.3/0.4", "arbitrary", "quickcheck", "proptest", "rand 0.8/0.9 distributions"],
